@@ -199,6 +199,8 @@ def generic(args, prop, worker, cfgs, confirm, level="model_checking", extra_tas
     """cfgs: list of (tag, cfg dict). confirm(rp, cand, fcost, result) -> (bool, replay payload)."""
     tier = args.tier
     t0 = time.time()
+    if tier == "thorough":
+        os.environ["VERIF_CROSSCHECK"] = "1"
     work = common.workdir(prop)
     build_s = common.build_tool()
     tasks, meta = [], {}
@@ -286,6 +288,13 @@ def generic(args, prop, worker, cfgs, confirm, level="model_checking", extra_tas
     ok = [r for r in results if r["status"] == "ok"]
     outside = [r for r in results if r["status"] == "outside"]
     undec = [u for r in ok for u in r["undecided"]]
+    regressions = expected_decided(args, prop, results, tier)
+    cross = [x for r in results for x in r.get("cross", [])]
+    for x in cross:
+        for name, verdict in x["others"].items():
+            if verdict in ("sat", "unsat") and verdict != x["expected"]:
+                faults.append(f"solver disagreement: z3-5.1 {x['expected']} ({x['method']}) vs "
+                              f"{name} {verdict}")
     methods = {}
     for r in ok:
         for k, v in r.get("methods", {}).items():
@@ -314,6 +323,12 @@ def generic(args, prop, worker, cfgs, confirm, level="model_checking", extra_tas
         "solver_cpu_s": round(sum(r.get("secs", 0) for r in ok), 1),
         "tool_build_s": round(build_s, 1),
         "machinery_faults": faults,
+        "undecided_regressions": regressions,
+        "cross_solver": {"queries_rechecked": len(cross),
+                         "agree": sum(1 for x in cross for v in x["others"].values()
+                                      if v == x["expected"]),
+                         "inconclusive": sum(1 for x in cross for v in x["others"].values()
+                                             if v not in ("sat", "unsat"))},
         "corpus_cases_skipped": corpus_skipped,
         "exhaustive": False,
         "bounds": f"see assumptions; per-query solver cap {tp['query_ms']} ms, per-function "
@@ -335,11 +350,48 @@ def generic(args, prop, worker, cfgs, confirm, level="model_checking", extra_tas
         print(f"VIOLATION property={prop} replay={rpath}")
     if violations:
         return 1
-    if errors or faults:
+    for rg in regressions[:30]:
+        print(f"UNDECIDED-REGRESSION {rg}")
+    if errors or faults or regressions:
         for fl in faults[:30]:
             sys.stderr.write("FAULT " + fl + "\n")
         return 2
     return 0
+
+
+def expected_decided(args, prop, results, tier):
+    """A change that merely makes the machine or the solver give up must not pass silently: the
+    functions the unchanged tree decides completely and quickly are listed in
+    expected/<prop>.json; if one of them becomes undecided / outside / erroneous the check exits 2
+    (a statement about the machinery, not a verdict)."""
+    path = os.path.join(common.VERIF, "expected", f"{prop}.json")
+    tp = workers.tier_params("quick")
+    if getattr(args, "record_expected", False):
+        good = sorted({f"{os.path.basename(r['dump']).split('.')[-2]}:{r['name']}"
+                       for r in results
+                       if r["status"] == "ok" and not r["undecided"]
+                       and r.get("secs", 1e9) < 0.25 * tp["func_budget_s"]})
+        os.makedirs(os.path.dirname(path), exist_ok=True)
+        json.dump(good, open(path, "w"), indent=0)
+        print(f"recorded {len(good)} expected-decided functions in {path}")
+        return []
+    if not os.path.exists(path) or args.only or args.families:
+        return []
+    expected = set(json.load(open(path)))
+    seen = {}
+    for r in results:
+        key = f"{os.path.basename(r['dump']).split('.')[-2]}:{r['name']}"
+        seen[key] = r
+    out = []
+    for key in sorted(expected):
+        r = seen.get(key)
+        if r is None:
+            continue  # function no longer generated (matrix changed): not a regression
+        if r["status"] != "ok":
+            out.append(f"{key}: now {r['status']}: {r.get('reason', r.get('error', ''))[:120]}")
+        elif [u for u in r["undecided"] if "budget" not in u]:
+            out.append(f"{key}: queries became undecided: {r['undecided'][:2]}")
+    return out
 
 
 # ------------------------------------------------------------------------------ confirmations
@@ -598,6 +650,8 @@ def main():
     ap.add_argument("--tier", default=os.environ.get("VERIF_TIER", "quick"))
     ap.add_argument("--only", nargs="*")
     ap.add_argument("--families", nargs="*")
+    ap.add_argument("--record-expected", action="store_true",
+                    help="rewrite expected/<prop>.json from this run (unchanged tree only)")
     ap.add_argument("--seed", type=int, default=int(os.environ.get("VERIF_SEED", "0")))
     args = ap.parse_args()
     if args.prop == "C07":
